@@ -203,16 +203,17 @@ func partAConfigs(tier string) []bfsRun {
 	}
 	abc := []string{"A", "B", "C"}
 	th := []bfsRun{
-		{bCfg{Name: "T-pruned-3src-4h", Blocks: []vBlockSpec{{Height: 1, TC: tcOut, Content: cBlob}, {Height: 2, TC: tcIn, Content: cTxBlob}, {Height: 3, TC: tcIn, Content: cEmpty}, {Height: 4, TC: tcIn, Content: cBig}},
-			Sources: abc, Queue: 2, FetchAns: []string{"blk", "err", "timeout"}, SyncAns: []string{"synced", "syncing", "err", "timeout"}, Tick: true}, 16},
-		{bCfg{Name: "T-archival-3src-4h", Archival: true, Blocks: []vBlockSpec{{Height: 1, TC: tcOut, Content: cBlob}, {Height: 2, TC: tcOut, Content: cEmpty}, {Height: 3, TC: tcIn, Content: cTx}, {Height: 4, TC: tcOut, Content: cBig}},
-			Sources: abc, Queue: 2, FetchAns: []string{"blk", "err", "timeout"}, SyncAns: []string{"synced", "syncing", "err", "timeout"}}, 16},
+		{bCfg{Name: "T-pruned-3src-q2", Blocks: []vBlockSpec{{Height: 1, TC: tcOut, Content: cBlob}, {Height: 2, TC: tcIn, Content: cTxBlob}, {Height: 3, TC: tcIn, Content: cEmpty}},
+			Sources: abc, Queue: 2, FetchAns: []string{"blk", "err", "timeout"}, SyncAns: []string{"synced", "syncing", "err", "timeout"}, Tick: true}, 18},
+		{bCfg{Name: "T-archival-2src-4h", Archival: true, Blocks: []vBlockSpec{{Height: 1, TC: tcOut, Content: cBlob}, {Height: 2, TC: tcOut, Content: cEmpty}, {Height: 3, TC: tcIn, Content: cTx}, {Height: 4, TC: tcOut, Content: cBig}},
+			Sources: ab, Queue: 1, FetchAns: []string{"blk", "err"}, SyncAns: []string{"synced", "err"}}, 18},
 		{bCfg{Name: "T-pruned-everything", Blocks: []vBlockSpec{{Height: 1, TC: tcOut, Content: cBlob}, {Height: 2, TC: tcIn, Content: cTxBlob}, {Height: 3, TC: tcIn, Content: cEmpty}},
-			Sources: ab, Queue: 1, FetchAns: []string{"blk", "err"}, SyncAns: []string{"synced", "syncing", "err"}, Faults: allFaults, Avail: true, GetAns: allGet, Stop: true}, 16},
+			Sources: ab, Queue: 1, FetchAns: []string{"blk", "err"}, SyncAns: []string{"synced", "syncing", "err"}, Faults: allFaults, Avail: true, GetAns: allGet, Stop: true}, 18},
 		{bCfg{Name: "T-archival-everything", Archival: true, Blocks: []vBlockSpec{{Height: 1, TC: tcOut, Content: cBlob}, {Height: 2, TC: tcOut, Content: cEmpty}, {Height: 3, TC: tcIn, Content: cTxBlob}},
-			Sources: ab, Queue: 1, FetchAns: []string{"blk", "err"}, SyncAns: []string{"synced", "syncing", "err"}, Faults: allFaults, Avail: true, GetAns: allGet, Stop: true}, 16},
+			Sources: ab, Queue: 1, FetchAns: []string{"blk", "err"}, SyncAns: []string{"synced", "err"}, Faults: []string{"link", "symlink", "ods-create", "q4-write"}, Avail: true,
+			GetAns: []string{"eds", "notfound", "canceled", "byz"}, Stop: true}, 18},
 		{bCfg{Name: "T-archival-window-edge", Archival: true, Blocks: []vBlockSpec{{Height: 1, TC: tcEdge, Content: cBlob}, {Height: 2, TC: tcOut, Content: cTx}},
-			Sources: ab, Queue: 1, FetchAns: []string{"blk", "timeout"}, SyncAns: []string{"synced", "slow", "err"}, Avail: true, GetAns: []string{"eds", "notfound"}, Stop: true}, 16},
+			Sources: ab, Queue: 1, FetchAns: []string{"blk", "timeout"}, SyncAns: []string{"synced", "slow", "err"}, Avail: true, GetAns: []string{"eds", "notfound"}, Stop: true}, 18},
 	}
 	return append(q, th...)
 }
